@@ -37,10 +37,14 @@ Definition is_push (o : option op) (v : nat) : bool :=
 Definition is_pop (o : option op) : bool :=
   match o with Some Pop => true | _ => false end.
 
+(* thread t holds no ticket *)
+Definition idle (m : mon) (t : nat) : bool :=
+  match pendP m t, pendC m t with None, None => true | _, _ => false end.
+
 Definition mon_step (m : mon) (e : ev) : option mon :=
   match e with
   | EWinP t k v =>
-      if Nat.eqb k (length (wP m)) && is_push (hd_error (rem m t)) v
+      if Nat.eqb k (length (wP m)) && is_push (hd_error (rem m t)) v && idle m t
       then Some {| wP := wP m ++ [(t, v)]; wC := wC m; pdone := pdone m;
                    pendP := upd (pendP m) t (Some k); pendC := pendC m; rem := rem m |}
       else None
@@ -59,7 +63,7 @@ Definition mon_step (m : mon) (e : ev) : option mon :=
       | None => None
       end
   | EWinC t k =>
-      if Nat.eqb k (length (wC m)) && mem k (pdone m) && is_pop (hd_error (rem m t))
+      if Nat.eqb k (length (wC m)) && mem k (pdone m) && is_pop (hd_error (rem m t)) && idle m t
       then Some {| wP := wP m; wC := wC m ++ [t]; pdone := pdone m;
                    pendP := pendP m; pendC := upd (pendC m) t (Some k); rem := rem m |}
       else None
@@ -78,7 +82,7 @@ Definition mon_step (m : mon) (e : ev) : option mon :=
       | None => None
       end
   | EEmptyC t k =>
-      if Nat.eqb k (length (wC m)) && negb (mem k (pdone m)) && is_pop (hd_error (rem m t))
+      if Nat.eqb k (length (wC m)) && negb (mem k (pdone m)) && is_pop (hd_error (rem m t)) && idle m t
       then Some {| wP := wP m; wC := wC m; pdone := pdone m; pendP := pendP m; pendC := pendC m;
                    rem := upd (rem m) t (tl (rem m t)) |}
       else None
@@ -97,6 +101,24 @@ Definition mon_init (progs : list (list op)) : mon :=
 
 Definition c30_ok (progs : list (list op)) (tr : list ev) : bool :=
   match mons (mon_init progs) tr with Some _ => true | None => false end.
+
+(* ---- notions used to state the consequences of acceptance on the trace itself ---- *)
+(* push / pop tickets in the order they were reserved *)
+Definition ticketsP (tr : list ev) : list nat :=
+  flat_map (fun e => match e with EWinP _ k _ => [k] | _ => [] end) tr.
+Definition ticketsC (tr : list ev) : list nat :=
+  flat_map (fun e => match e with EWinC _ k => [k] | _ => [] end) tr.
+(* tickets of the pushes / pops that have returned *)
+Definition donesP (tr : list ev) : list nat :=
+  flat_map (fun e => match e with EDoneP _ k _ => [k] | _ => [] end) tr.
+Definition donesC (tr : list ev) : list nat :=
+  flat_map (fun e => match e with EDoneC _ k _ => [k] | _ => [] end) tr.
+(* the operations of thread t that have returned, in order *)
+Definition ops_of (t : nat) (tr : list ev) : list op :=
+  flat_map (fun e => match e with
+                     | EDoneP t' _ v => if Nat.eqb t' t then [Push v] else []
+                     | EDoneC t' _ _ | EEmptyC t' _ => if Nat.eqb t' t then [Pop] else []
+                     | _ => [] end) tr.
 
 (* a complete experiment: every operation of every program has returned and, at the end, as
    many pop tickets as push tickets have been handed out (with c30_ok: every pushed element has
@@ -131,3 +153,11 @@ From Coq Require Import NArith.
 Definition free_ok (np ops total dup lost ord sum : N) : bool :=
   let n := (np * ops)%N in
   (N.eqb total n && N.eqb dup 0 && N.eqb lost 0 && N.eqb ord 0 && N.eqb (2 * sum) (n * (n + 1)))%N.
+
+(* ---- backlog summary printed by the harness: n elements pushed (all pushes must report
+   success) while nobody pops, then n+1 pops by one thread: exactly n deliver, each element
+   once, none missing, in order (per producer; exact position for a single producer), and the
+   last pop reports empty.  [null] counts pops that returned true without a usable element. ---- *)
+Definition backlog_ok (n pushed popped empty null dup lost ord : N) : bool :=
+  (N.eqb pushed n && N.eqb popped n && N.eqb empty 1 && N.eqb null 0 && N.eqb dup 0 &&
+   N.eqb lost 0 && N.eqb ord 0)%N.
